@@ -87,6 +87,19 @@ pub fn respell(p: &str) -> Vec<String> {
     v
 }
 
+/// every L match request with its price written in other, numerically equal ways
+pub fn match_respell(l: &[Act]) -> Vec<Act> {
+    let mut v = vec![];
+    for a in l {
+        if let Req::Match { ask_id, bid_id, price, size } = &a.req {
+            for p in respell(price) {
+                v.push(Act::new(&a.sender, vec![], Req::Match { ask_id: ask_id.clone(), bid_id: bid_id.clone(), price: p, size: *size }));
+            }
+        }
+    }
+    dedupe(v)
+}
+
 /// C03: the match request product
 pub fn match_product(cfg: &Cfg, m: &Menu, thorough: bool) -> Vec<Act> {
     let r = &cfg.roles;
